@@ -114,6 +114,39 @@ fn plain_mutations(nrounds: usize, nsteps: usize, ncaps: usize) -> Vec<Mut<Pwpi>
                 p.proof.opening_proof.query_round_proofs.get_mut(ri).and_then(|q| q.initial_trees_proof.evals_proofs.get_mut(oi)).map(|e| &mut e.1.siblings)
             }, h0);
         }
+        // moves between neighbouring oracles / steps of the round (totals unchanged)
+        for oi in 0..3usize {
+            for dir in 0..2usize {
+                let (from, to) = if dir == 0 { (oi, oi + 1) } else { (oi + 1, oi) };
+                m.push((format!("round {ri}: move last leaf value of oracle {from} to oracle {to}"), Box::new(move |p| {
+                    if let Some(q) = p.proof.opening_proof.query_round_proofs.get_mut(ri) {
+                        let ep = &mut q.initial_trees_proof.evals_proofs;
+                        if from < ep.len() && to < ep.len() { if let Some(x) = ep[from].0.pop() { ep[to].0.push(x) } }
+                    }
+                })));
+                m.push((format!("round {ri}: move last sibling of oracle {from} to oracle {to}"), Box::new(move |p| {
+                    if let Some(q) = p.proof.opening_proof.query_round_proofs.get_mut(ri) {
+                        let ep = &mut q.initial_trees_proof.evals_proofs;
+                        if from < ep.len() && to < ep.len() { if let Some(x) = ep[from].1.siblings.pop() { ep[to].1.siblings.push(x) } }
+                    }
+                })));
+            }
+        }
+        for si in 0..nsteps.saturating_sub(1) {
+            for dir in 0..2usize {
+                let (from, to) = if dir == 0 { (si, si + 1) } else { (si + 1, si) };
+                m.push((format!("round {ri}: move last evaluation of step {from} to step {to}"), Box::new(move |p| {
+                    if let Some(q) = p.proof.opening_proof.query_round_proofs.get_mut(ri) {
+                        if from < q.steps.len() && to < q.steps.len() { if let Some(x) = q.steps[from].evals.pop() { q.steps[to].evals.push(x) } }
+                    }
+                })));
+                m.push((format!("round {ri}: move last sibling of step {from} to step {to}"), Box::new(move |p| {
+                    if let Some(q) = p.proof.opening_proof.query_round_proofs.get_mut(ri) {
+                        if from < q.steps.len() && to < q.steps.len() { if let Some(x) = q.steps[from].merkle_proof.siblings.pop() { q.steps[to].merkle_proof.siblings.push(x) } }
+                    }
+                })));
+            }
+        }
         m.push((format!("round {ri} steps: empty"), Box::new(move |p| {
             if let Some(q) = p.proof.opening_proof.query_round_proofs.get_mut(ri) { q.steps.clear() }
         })));
